@@ -86,6 +86,11 @@ CHECKS = {
             "Sparse-id universes, generated seed sets, added requirements and serde round trips; verdict/validity differential against the live tables, order preservation, id hygiene after every add_package_requirement, structural round-trip equality.",
             "favored/locked are stripped (not representable); union member order is not compared (the format stores a set).",
             "DESIGN.md 3/C16"),
+    "C17": ("differential testing Rust API vs C++ API plus model-based container histories on both sides of the FFI, under ASan/UBSan and a ledger allocator",
+            "exploration",
+            "Generated universes are solved through resolvo::solve with a C++ provider compiled against the current headers and through the Rust API (exact equality of solution / error text); generated operation histories drive resolvo::Vector/String in C++ and resolvo_cpp's Vector/String in Rust, crossing the boundary in both directions, against models; memory safety comes from AddressSanitizer (Rust and C++), UBSan traps (C++) and a ledger global allocator that checks dealloc layouts and per-case leaks.",
+            "Sanitizers observe executed paths only; element types generated are id structs and String; push_back never receives a reference into the same vector (not promised by the header). Needs the verif-hooks feature of resolvo_cpp (re-export of the container types).",
+            "DESIGN.md 3/C17"),
     "C18": ("stateful property testing of Pool interning against reference maps with held references",
             "exploration",
             "Histories of intern/resolve/lookup calls across chunk boundaries are checked against HashMap/Vec models; raw copies of every returned reference are re-read after later insertions.",
@@ -138,14 +143,14 @@ def main():
         "setup_cmd": "./check build",
         "hooks": {
             "guard": "cargo feature `verif-hooks` (off by default)",
-            "enable": "the harness enables the feature on the path dependency when a hook is needed; no hook is required by the checks registered so far",
+            "enable": "harness/ffi/Cargo.toml depends on resolvo_cpp with features = [\"verif-hooks\"] (re-export of the private container types Vector/String/Slice); every other check builds /repo without any hook",
             "baseline_off_cmd": "cd /repo && cargo test --workspace --no-fail-fast --offline",
             "source_commits": hooks,
             "add_only": True,
         },
         "engines": [
             {"name": "vrun", "path": "/verif/harness", "serves_properties": [c["property_id"] for c in checks],
-             "kind_free_text": "Rust harness (toolchain 1.86.0): proptest-generated choice tapes -> universes/problems/schedules/histories, table-driven provider, harness-owned async scheduler, reference resolver and oracles, structural shrinking, replay files, evidence"},
+             "kind_free_text": "Rust harness (toolchain 1.86.0; for C17 a second nightly build with AddressSanitizer + clang++-14 shim in harness/ffi): proptest-generated choice tapes -> universes/problems/schedules/histories, table-driven provider, harness-owned async scheduler, reference resolver and oracles, structural shrinking, replay files, evidence"},
         ],
         "checks": checks,
         "not_applicable": na,
